@@ -3,7 +3,7 @@ goto-instrument --enforce-contract target (+ replaced callee contracts)."""
 
 
 class Unit(object):
-    def __init__(self, name, props, cuts, template, enforce, entry=None,
+    def __init__(self, name, props, cuts, template, enforce=None, entry=None,
                  replace=(), mode='inductive', unwind=None, variants=None,
                  thorough_variants=None, flags=(), timeout=600, model='uf',
                  assumptions=(), replay=None, desc='', functions=None,
@@ -15,7 +15,7 @@ class Unit(object):
         self.cuts = cuts                  # {placeholder: Cut}
         self.template = template          # C text with /*@CUT:placeholder@*/
         self.enforce = enforce            # C function whose contract is enforced
-        self.entry = entry or ('h_' + enforce)
+        self.entry = entry or ('h_' + str(enforce))
         self.replace = list(replace)      # callee contracts used instead of bodies
         self.mode = mode                  # 'inductive' | 'unwound'
         self.unwind = unwind
